@@ -6,13 +6,14 @@ namespace TIV.C16
 open TIV.Wire
 
 def fmtInts (xs : List Int) : String := String.intercalate "," (xs.map toString)
-def fmtNs (n : NS) : String := toString n.cls ++ ":" ++ fmtInts n.vals
+def fmtNs (n : NS) : String :=
+  toString n.cls ++ (if n.tag = 0 then "" else "~" ++ toString n.tag) ++ ":" ++ fmtInts n.vals
 def fmtDict (d : Dict) : String := String.intercalate ";" (d.map (fun e => fmtNs e.2))
 def fmtObj (o : Obj) : String := toString o.rcls ++ "/" ++ fmtDict o.nss
 
 def pNs : P NS := do
-  let c ← nat; let vs ← listOf int
-  pure ⟨c, vs⟩
+  let c ← nat; let vs ← listOf int; let t ← nat
+  pure ⟨c, vs, t⟩
 def pFields : P (List (Nat × Int)) := listOf (do let i ← nat; let v ← int; pure (i, v))
 def pOperand : P Operand := do
   let t ← word
@@ -24,8 +25,12 @@ def pOperand : P Operand := do
 inductive Cmd
   | op (o : Op)
   | eq (i j : Nat) | hash (i : Nat) | has (i : Nat) (n : NS) | get (i : Nat) (c : Cls)
-  | nsi (c : Cls) (vals : List Int) (fields : List (Nat × Int))
+  | nsi (c : Cls) (tag : Nat) (vals : List Int) (fields : List (Nat × Int))
   | nsu (n : NS) (fields : List (Nat × Int))
+  | ds (c : Cls) (tag : Nat)
+  | nseq (a b : NS) | nshash (a : NS)
+  | attr (n : NS) (idx : Nat) | seta (n : NS) (idx : Nat) (v : Int) | dela (n : NS) (idx : Nat)
+  | gett (i : Nat)
 
 def pCmd : P Cmd := do
   let t ← word
@@ -47,7 +52,14 @@ def pCmd : P Cmd := do
   | "hash" => do let i ← nat; pure (.hash i)
   | "has" => do let i ← nat; let n ← pNs; pure (.has i n)
   | "get" => do let i ← nat; let c ← nat; pure (.get i c)
-  | "nsi" => do let c ← nat; let v ← listOf int; let f ← pFields; pure (.nsi c v f)
+  | "nsi" => do let c ← nat; let t ← nat; let v ← listOf int; let f ← pFields; pure (.nsi c t v f)
+  | "ds" => do let c ← nat; let t ← nat; pure (.ds c t)
+  | "nseq" => do let a ← pNs; let b ← pNs; pure (.nseq a b)
+  | "nshash" => do let a ← pNs; pure (.nshash a)
+  | "attr" => do let n ← pNs; let i ← nat; pure (.attr n i)
+  | "seta" => do let n ← pNs; let i ← nat; let v ← int; pure (.seta n i v)
+  | "dela" => do let n ← pNs; let i ← nat; pure (.dela n i)
+  | "gett" => do let i ← nat; pure (.gett i)
   | "nsu" => do let n ← pNs; let f ← pFields; pure (.nsu n f)
   | _ => failure
 
@@ -71,10 +83,21 @@ def exec (S : State) : Cmd → Option (State × String)
     else none
   | .has i n => if S.validObj i && S.validNs n then some (S, fmtBool (contains S i n)) else none
   | .get i c => if S.validObj i && S.validCls c then some (S, fmtExNs (getitem S i c)) else none
-  | .nsi c v f =>
+  | .nsi c t v f =>
     match S.args c with
-    | some d => some (S, fmtExNs (nsInit c d v f))
+    | some d => some (S, fmtExNs (nsInit c d v f t))
     | none => none
+  | .ds c t => if (S.args c).isSome && decide (0 < t) then some (S, "s" ++ toString t) else none
+  | .nseq a b => if S.validNs a && S.validNs b then some (S, fmtBool (nsEq a b)) else none
+  | .nshash a =>
+    if S.validNs a then some (S, "g" ++ toString (nsHashKey a).1 ++ ":" ++ fmtInts (nsHashKey a).2) else none
+  | .attr n i =>
+    if S.validNs n then
+      some (S, match nsGetattr n i with | .ok v => "v" ++ toString v | .error e => "E:" ++ e.name)
+    else none
+  | .seta n i v => if S.validNs n then some (S, "E:" ++ (nsSetattr n i v).name) else none
+  | .dela n i => if S.validNs n then some (S, "E:" ++ (nsDelattr n i).name) else none
+  | .gett i => if S.validObj i then some (S, "E:" ++ getitemNonClass.name) else none
   | .nsu n f => if S.validNs n then some (S, fmtExNs (nsUpdate S n f)) else none
 
 def execAll (S : State) : List Cmd → List String → Option (List String)
